@@ -428,6 +428,10 @@ CHECKS = {
         "legs": [
             model("Handle_MC.cfg", spec="Handle.tla", min_states=800),
             model("Handle_DevAnywhere.cfg", spec="Handle.tla", expect_violation="C20_Confined"),
+            # lazy value fetched through two relaying endpoints with the first connection cut at any moment; the deviation (a relay
+            # closes a cancelled message normally, seeded change C20_m2) yields a truncated value
+            model("Lazy_MC.cfg", spec="Lazy.tla", min_states=60),
+            model("Lazy_DevFinish.cfg", spec="Lazy.tla", expect_violation="C20_NeverTruncated"),
             dict(HT, kind="trace", name="handle", workload="handle", n=(400, 6000), opts={}, require={r'"res":"value"': 150, r'"res":"unknown"': 100, r'"res":"mismatch"': 30, r'"ev":"hd_arrived"': 300},
                  nontrivial=[r'"ep":0,"ev":"hd_arrived"', r'"ev":"hd_res"']),
             dict(HT, kind="trace", name="handle_cut", workload="handle", n=(100, 1500), opts={"cut": 1}, require={r'"ev":"fault"': 35}, nontrivial=[r'"ev":"fault"']),
